@@ -51,9 +51,12 @@ inline Bytes content(uint32_t id, size_t n)
 inline StreamSet genStreams(Rng& r, size_t nEndpoints, size_t targetFrames)
 {
     StreamSet S;
+    const bool wideIds = r.chance(1, 4);
     while (S.eps.size() < nEndpoints)
     {
         std::pair<uint16_t, uint8_t> e{pickDevice(r), pickStream(r)};
+        if (wideIds)
+            e = {static_cast<uint16_t>(r.next()), r.byte()};
         if (std::find(S.eps.begin(), S.eps.end(), e) == S.eps.end())
             S.eps.push_back(e);
     }
